@@ -175,6 +175,11 @@ def run_request(variant, pseed, fault=None, cseed=0, keep=False, dcfg_override=N
         return None
     w = World(pch, device_cfg=dcfg, v1=v1, fault_fn=fault_fn)
     w.bring_up()
+    if variant == "blockchainState":
+        # the state the device reports, by policy seed: the firmware strips leading zero bytes from the
+        # total difficulty, so a difficulty of zero is a well-formed answer with an empty payload
+        w.device.state["difficulty"] = [b"\x01\x00", b"", b"\xff" * 36, b"\x07"][pseed % 4]
+        w.device.state["flags"] = [bytes([0, 0, 0]), bytes([1, 0, 0]), bytes([1, 1, 1])][pseed % 3]
     earlier = earlier_for(variant, pseed)
     if earlier is not None:
         req0, exp0, _v1, _d = build_request(earlier, pseed, cseed + 1)
